@@ -580,6 +580,9 @@ class Tr:
                 return eff, f'(Some {t})'
             eff, t = self.E(a, env)
             return eff, f'(as_opt {t})'
+        if ty == 'vec':
+            eff, t = self.E(a, env)
+            return eff, f'(as_vec {t})'
         if ty == 'list (option Q)' and not isinstance(a, (ast.List, ast.Tuple)):
             eff, t = self.E(a, env)
             return eff, f'(as_optlist {t})'
@@ -2148,8 +2151,41 @@ def translate_raster(src_dir: str) -> str:
     return ''.join(out)
 
 # ---- LaserPath.init_point / start / end (C04, C14): how a path is opened and closed
+_LB_MAP_OR = "Call(func=Name(id='map'), args=[Lambda(args=arguments(posonlyargs=[], args=[arg(arg='k')], kwonlyargs=[], kw_defaults=[], defaults=[]), body=BoolOp(op=Or(), values=[Name(id='k'), Constant(value=0)])), Name(id='increment')], keywords=[])"
+
+
 def _h_lb(tr, e, env):
     d = dump(e)
+    # a = self._a[-1] if increment[k] is None else np.array([increment[k]])
+    m = re.fullmatch(r"IfExp\(test=Compare\(left=Subscript\(value=Name\(id='increment'\), slice=Constant\(value=([012])\)\), ops=\[Is\(\)\], comparators=\[Constant\(value=None\)\]\), "
+                     r"body=Subscript\(value=Attribute\(value=Name\(id='self'\), attr='(_[xyz])'\), slice=UnaryOp\(op=USub\(\), operand=Constant\(value=1\)\)\), "
+                     r"orelse=Call\(func=Attribute\(value=Name\(id='np'\), attr='array'\), args=\[List\(elts=\[Subscript\(value=Name\(id='increment'\), slice=Constant\(value=\1\)\)\]\)\], keywords=\[\]\)\)", d)
+    if m:
+        # the last recorded value is read first: every later statement reads it unconditionally, nothing observable happens in between
+        eff, t = tr.E(e.body, env)
+        return eff, f'(match nth_error increment {m.group(1)} with Some (Some v__) => v__ | _ => {t} end)'
+    if isinstance(e, ast.Call) and _np_is(e.func, 'np', 'sqrt') and len(e.args) == 1 and not e.keywords:
+        eff, t = tr.E(e.args[0], env)
+        return eff, f'(SqrtOf {t})'
+    if isinstance(e, ast.BinOp) and isinstance(e.op, ast.Pow) and isinstance(e.right, ast.Constant) and e.right.value == 2:
+        eff, t = tr.E(e.left, env)
+        return eff, f'(sq {t})'
+    if (isinstance(e, ast.Compare) and len(e.ops) == 1 and isinstance(e.ops[0], ast.LtE) and isinstance(e.left, ast.Name) and e.left.id == 'l_curve'
+            and isinstance(e.comparators[0], ast.Constant) and isinstance(e.comparators[0].value, float) and e.comparators[0].value >= 0):
+        return [], f'(sqrt_le l_curve {cq(e.comparators[0].value)})'
+    if isinstance(e, ast.Call) and _np_is(e.func, 'np', 'array') and len(e.args) == 1 and not e.keywords and isinstance(e.args[0], ast.List) \
+            and len(e.args[0].elts) == 1:
+        return tr.E(e.args[0].elts[0], env)            # a one-element array, read as its element
+    if (isinstance(e, ast.BinOp) and isinstance(e.op, ast.Mult) and isinstance(e.left, ast.Name) and isinstance(e.right, ast.Call)
+            and _np_is(e.right.func, 'np', 'ones_like') and len(e.right.args) == 1 and isinstance(e.right.args[0], ast.Name) and not e.right.keywords):
+        return [], f'(fill_like (to_float {cname(e.left.id)}) {cname(e.right.args[0].id)})'
+    if isinstance(e, ast.Call) and _np_is(e.func, 'np', 'linspace') and len(e.args) == 3 and not e.keywords:
+        effs, ts = [], []
+        for a in e.args:
+            eff, t = tr.E(a, env)
+            effs += eff
+            ts.append(t)
+        return effs, f'(np_linspace {" ".join(ts)})'
     m = re.fullmatch(r"Attribute\(value=Attribute\(value=Name\(id='self'\), attr='(_[xyzfs])'\), attr='size'\)", d)
     if m:
         return [('st__', 'get')], f'(py_len (lb_{m.group(1)} st__))'
@@ -2174,6 +2210,13 @@ def _h_lb(tr, e, env):
 
 
 def _s_lb(tr, s, rest, env, tail):
+    if (isinstance(s, ast.Assign) and len(s.targets) == 1 and isinstance(s.targets[0], ast.Tuple) and dump(s.value) == _LB_MAP_OR
+            and all(isinstance(x, ast.Name) for x in s.targets[0].elts)):
+        names = [cname(x.id) for x in s.targets[0].elts]            # x, y, z = map(lambda k: k or 0, increment)
+        body = tr.T(rest, env, tail)
+        for n in reversed(names):
+            body = f'let {n} := or0 {n} in {body}'
+        return f"match increment with [{'; '.join(names)}] => {body} | _ => raise EValue end"
     if (isinstance(s, ast.Assign) and len(s.targets) == 1 and isinstance(s.targets[0], ast.Tuple) and all(isinstance(x, ast.Name) for x in s.targets[0].elts)
             and not isinstance(s.value, ast.Name)):
         names = [cname(x.id) for x in s.targets[0].elts]
@@ -2193,10 +2236,12 @@ def translate_laserpath(src_dir: str) -> str:
             raise Unsupported('class LaserPath not found')
         METHODS = {'init_point': ('property', [], 'list Q'),
                    'start': ('method', [('init_pos', 'option (list Q)'), ('speed_pos', 'option Q')], 'unit'),
-                   'end': ('method', [], 'unit')}
-        CFG_ATTRS = {'x_init', 'y_init', 'z_init', 'speed', 'speed_pos', 'speed_closed'}
+                   'end': ('method', [], 'unit'),
+                   'linear': ('method', [('increment', 'list (option Q)'), ('mode', 'string'), ('shutter', 'Z'), ('speed', 'option Q')], 'unit')}
+        CFG_ATTRS = {'x_init', 'y_init', 'z_init', 'speed', 'speed_pos', 'speed_closed', 'warp_flag'}
         STATE_ATTRS = {'_x': 'lb__x', '_y': 'lb__y', '_z': 'lb__z', '_f': 'lb__f', '_s': 'lb__s'}
-        ORACLES = {'add_path': ('lb_add_path', True, False, ['x', 'y', 'z', 'f', 's'])}
+        ORACLES = {'add_path': ('lb_add_path', True, False, ['x', 'y', 'z', 'f', 's'], {}, ['vec', 'vec', 'vec', 'vec', 'vec']),
+                   'num_subdivisions': ('lb_num_sub', True, True, ['l_curve', 'speed'])}
         CFG_TYPE, LOCAL_ELT, EXTRA_PARAMS, MONAD = 'lb_cfg', {}, '', 'ML'
         EXPR_HOOKS, STMT_SKIP, RECEIVERS, STMT_HOOKS = [_h_lb], [], {'self'}, [_s_lb]
         tr = Tr(cls[0])
